@@ -172,7 +172,7 @@ let zlist_of_string s = if s = "-" then [] else List.map z_of_string (split ',' 
 
 (* ---- commands ------------------------------------------------------------------- *)
 let handle (line : string) : string =
-  match split ' ' line with
+  match List.filter (fun t -> t <> "") (split ' ' line) with
   | ["ck"; h] ->
     let (a, b) = M.ck_adds M.ck_reset (bytes_of_hex h) in
     Printf.sprintf "%d %d" (int_of_n a) (int_of_n b)
